@@ -1,6 +1,5 @@
 (* C02 - perfect reconstruction (line level).  Statements only. *)
-From Coq Require Import String.
-From PW Require Import Base.Ops Base.Sum Base.Sig Base.Tensor Model.Dwt Spec.Line Proofs.DwtNF Proofs.LineTheory Proofs.C01Proofs Proofs.C02Proofs Proofs.CircPR Proofs.C02ProofsPer Proofs.SfbNF Proofs.C02Proofs2D Proofs.Per2D Proofs.PywtProofs Gen.PywtTables.
+From PW Require Import Base.Ops Base.Sum Base.Sig Base.Tensor Model.Dwt Spec.Line Proofs.DwtNF Proofs.LineTheory Proofs.C01Proofs Proofs.C02Proofs Proofs.CircPR Proofs.C02ProofsPer Proofs.SfbNF Proofs.C02Proofs2D Proofs.Per2D.
 
 (* master identity: synthesis (window [ka,kb)) of the analysis of ANY signal on the line = the signal filtered by the
    kernel Pk built from the four filters; no hypothesis on the filters *)
@@ -137,19 +136,8 @@ Print Assumptions C02_multilevel_2d_per.
 Example C02_levels_ok2_per_example : levels_ok2_per 2 4 2 13 10.
 Proof. cbn [levels_ok2_per]. unfold even_len. cbn. repeat split; lia. Qed.
 
-(* ---- filter side: all 106 PyWavelets banks (exact dyadic taps regenerated from the installed package) ---- *)
-(* l1 deviation of the reconstruction kernel from the unit impulse <= 2^-34 (dmey: 2^-7), both output parities *)
-Theorem C02_pywt_kernels :
-  forallb (fun b => bank_ok (if String.eqb (fst (fst (fst (fst (fst b))))) "dmey" then 7 else 34) b) pywt_banks = true.
-Proof. exact all_banks_hold. Qed.
-Print Assumptions C02_pywt_kernels.
-(* what that deviation bounds: for ANY integer signal bounded by M the (2^260-scaled) reconstruction differs from the signal by at most residual * M *)
-Theorem C02_error_bound_Z :
-  forall L (d0 d1 g0 g1 X:Z->Z) ka kb i M, 0 < L -> ka <= kb ->
-  (forall k, ~(ka <= k < kb) -> ~(0 <= i + (L-2) - 2*k < L)) -> (forall u, Z.abs (X u) <= M) ->
-  Z.abs (synL ZOps L g0 g1 ka kb (anaL ZOps L d0 X) (anaL ZOps L d1 X) i - 2 ^ (2*KP) * X i) <= residual L d0 d1 g0 g1 (i mod 2) * M.
-Proof. exact recon_error_Z. Qed.
-Print Assumptions C02_error_bound_Z.
+(* the filter side (kernel residual of all 106 PyWavelets banks, C02_pywt_kernels, and the error bound it implies, C02_error_bound_Z)
+   is in Props/C02Kernels.v: its proof is a 50 s vm_compute that the independent checker coqchk cannot replay in reasonable time *)
 
 (* non-vacuity: Haar over Z (unnormalised: dec = (1,1),(-1,1); rec = (1,1),(1,-1); kernel = 2*delta), window [0,3) *)
 Example C02_haar_kernel :
